@@ -66,19 +66,25 @@ def copyMode (m : String) : Nat → C Nat → C Nat :=
 def collHist (cp : Nat → C Nat → C Nat) (all : Bool) (ops : List String) : String := Id.run do
   let mut w : World Nat := { next := 0, colls := [] }
   let mut outs : Array String := #[]
+  let mut left := ops.length
   for s in ops do
+    left := left - 1
+    -- in the "last step only" form the earlier steps are replayed without being printed or checked
+    -- (every prefix is a request of its own)
+    let emit := all || left == 0
     match pOp s with
     | none => outs := outs.push "bad-op"
     | some (.inl ty) =>
         w := newColl w ty
-        outs := outs.push s!"ok#{fWorld w}"
+        if emit then outs := outs.push s!"ok#{fWorld w}"
     | some (.inr op) =>
         let (w', r) := stepWith cp w op
-        -- the specification must agree on the abstract view and the result
-        let (s', r') := specStep (view w) op
-        let agree := decide (view w' = s') && (fRes r == fRes r')
+        if emit then
+          -- the specification must agree on the abstract view and the result
+          let (s', r') := specStep (view w) op
+          let agree := decide (view w' = s') && (fRes r == fRes r')
+          outs := outs.push s!"{fRes r}#{fWorld w'}#{fB agree}"
         w := w'
-        outs := outs.push s!"{fRes r}#{fWorld w}#{fB agree}"
   if all then return String.intercalate " " outs.toList
   else return outs.back?.getD "-"
 
@@ -152,7 +158,9 @@ def cfgRun (world : String) (ops : List String) : String := Id.run do
   let nxt := (cfgs.flatMap Cfg.locs).foldl max 0 + 1
   let mut w : CWorld := { next := nxt, cfgs := cfgs }
   let mut outs : Array String := #[]
+  let mut left := ops.length
   for o in ops do
+    left := left - 1
     let op? : Option (COp × Bool) := match o.splitOn ":" with
       | ["new"] => some (.new, false)
       | ["fd", u] => some (.fromDict (pN u), false)
@@ -166,7 +174,8 @@ def cfgRun (world : String) (ops : List String) : String := Id.run do
         let (ws, rs) := cspecStep w op
         let agree := decide (w'.cfgs = ws.cfgs) && (fCRes r == fCRes rs)
         w := w'
-        outs := outs.push s!"{fCRes r}#{fCWorld w}#{fB agree}"
+        -- the world is printed after the last operation only
+        outs := outs.push s!"{fCRes r}#{if left == 0 then fCWorld w else "-"}#{fB agree}"
   return String.intercalate " " outs.toList
 
 def answer (line : String) : String :=
